@@ -88,15 +88,15 @@ mut("c09-json-severity-slot", ["C09", "C11"], ("cvss/cvss3.py", 'data["temporalS
 mut("c09-v4-low-boundary", ["C09"], ("cvss/cvss4.py", "        elif self.base_score <= 3.9:", "        elif self.base_score < 3.9:"))
 # ---------------------------------------------------------------- C10
 mut("c10-enum-misspelt", ["C10", "C11"], ("cvss/constants3.py", '[("X", "Not Defined"), ("C", "Confirmed"), ("R", "Reasonable"), ("U", "Unknown")]', '[("X", "Not Defined"), ("C", "Confirmed"), ("R", "Reasonably Sure"), ("U", "Unknown")]'))
-mut("c10-score-as-string", ["C10", "C11"], ("cvss/cvss2.py", '            "baseScore": float(self.base_score),', '            "baseScore": str(self.base_score),'))
+mut("c10-score-as-string", ["C10", "C11"], ("cvss/cvss2.py", '                ("baseScore", float(self.base_score)),', '                ("baseScore", str(self.base_score)),'))
 mut("c10-v3-severity-capitalised", ["C10"], ("cvss/cvss3.py", 'data["baseSeverity"] = us(base_severity)', 'data["baseSeverity"] = base_severity'))
-mut("c10-v4-version-regressed", ["C10", "C11"], ("cvss/cvss4.py", '            "version": "4.0",', '            "version": "4",'))
+mut("c10-v4-version-regressed", ["C10", "C11"], ("cvss/cvss4.py", '                ("version", "4.0"),', '                ("version", "4"),'))
 # ---------------------------------------------------------------- C11
 mut("c11-minimal-truthiness", ["C11"], ("cvss/cvss2.py", "        if not minimal or self.environmental_score is not None:", "        if not minimal or self.environmental_score:"))
 mut("c11-value-names-swapped", ["C11"], ("cvss/constants2.py", '                    ("OF", "Official Fix"),\n                    ("TF", "Temporary Fix"),', '                    ("OF", "Temporary Fix"),\n                    ("TF", "Official Fix"),'))
 mut("c11-sort-drops-key", ["C11"], ("cvss/cvss3.py", "            data = OrderedDict(sorted(data.items()))\n        return data\n\n    def __hash__", "            data = OrderedDict(sorted(data.items())[1:])\n        return data\n\n    def __hash__"))
 mut("c11-modified-not-resolved", ["C11"], ("cvss/cvss3.py", '        string_value = self.metrics.get(abbreviation, "X")\n        result = METRICS_VALUE_NAMES[abbreviation][string_value]', '        string_value = self.original_metrics.get(abbreviation, "X")\n        result = METRICS_VALUE_NAMES[abbreviation][string_value]'))
-mut("c11-vectorstring-cleaned", ["C11"], ("cvss/cvss2.py", '            "vectorString": self.vector,', '            "vectorString": self.clean_vector(),'))
+mut("c11-vectorstring-cleaned", ["C11"], ("cvss/cvss2.py", '                ("vectorString", self.vector),', '                ("vectorString", self.clean_vector()),'))
 # ---------------------------------------------------------------- C12
 mut("c12-tolerance", ["C12"], ("cvss/cvss3.py", "        if cvss_object.scores()[0] == score_value:", "        if abs(cvss_object.scores()[0] - score_value) < 0.11:"))
 mut("c12-any-score-slot", ["C12"], ("cvss/cvss2.py", "        if cvss_object.scores()[0] == score_value:", "        if score_value in cvss_object.scores():"))
@@ -133,7 +133,7 @@ mut("c17-env-score-dropped", ["C17"], ("cvss/cvss_calculator.py", 'enumerate(["B
 mut("c17-clean-vector-raw", ["C17"], ("cvss/cvss_calculator.py", 'print("Cleaned vector:       ", cvss_vector.clean_vector())', 'print("Cleaned vector:       ", vector_string)'))
 # ---------------------------------------------------------------- C18
 mut("c18-json-cached-by-reference", ["C18"],
-    ("cvss/cvss3.py", "        base_severity, temporal_severity, environmental_severity = self.severities()\n\n        data = {", "        if not sort and not minimal and hasattr(self, \"_json\"):\n            return self._json\n        base_severity, temporal_severity, environmental_severity = self.severities()\n\n        data = {"),
+    ("cvss/cvss3.py", "        base_severity, temporal_severity, environmental_severity = self.severities()\n\n        # Ordered,", "        if not sort and not minimal and hasattr(self, \"_json\"):\n            return self._json\n        base_severity, temporal_severity, environmental_severity = self.severities()\n\n        # Ordered,"),
     ("cvss/cvss3.py", "            data = OrderedDict(sorted(data.items()))\n        return data\n\n    def __hash__", "            data = OrderedDict(sorted(data.items()))\n        if not sort and not minimal:\n            self._json = data\n        return data\n\n    def __hash__"))
 mut("c18-clean-vector-mutates", ["C18"], ("cvss/cvss3.py", '                if value != "X":\n                    vector.append("{0}:{1}".format(metric, value))\n        if output_prefix:\n            prefix = "CVSS:3.{0}/"',
                                           '                if value != "X":\n                    vector.append("{0}:{1}".format(metric, value))\n                else:\n                    del self.original_metrics[metric]\n        if output_prefix:\n            prefix = "CVSS:3.{0}/"'))
